@@ -104,6 +104,17 @@ CHECKS.update({
         note='trusts spec/cif11.py; number formatting is str(float); tags are outside the value quantifier', ref='3 C14'),
 })
 
+CHECKS.update({
+    'C12': dict(
+        level='other', technique='I/O effect analysis: wire signatures of writer and reader functions, symbolic byte counts, chunk-loop idiom recognition, ordering rules over the builder',
+        text='Static: writer and reader wire signatures agree for header, table, descriptors, pixel and histogram blocks; declared sizes equal the symbolic byte counts of the writes (the chunked pixel loop must cover the declared pixel count); positions start after the table and advance by the declared sizes in write order; canonical block order independent of call order; header constants and byte-order deduction; byte order honoured by every multi-byte primitive; exhaustive matches; type tags covered by writers == readers.',
+        note='numpy tofile/tobytes modelled as size*itemsize; several ordering rules match normalised statements of the builder', ref='3 C12'),
+    'C13': dict(
+        level='other', technique='abstract round trip: symbolic model instances are serialised and parsed back inside the abstract interpreter; the term domain tracks the unit bare numbers are expressed in',
+        text='Static: for every metadata class the package\'s serializer output, fed to the registered parser, returns every unit-carrying field with the physical value supplied (writer unit == reader label), undoes 1-based indices, converts integer metadata in float64, and reads only fields that are written; pixel rows map names to units with one conversion per row into the float32 buffer; data_range/npix come from the same rows; instrument/sample containers reference one shared object per run.',
+        note='byte-level encoding is C12; Horace compatibility and float formatting not decided', ref='3 C13'),
+})
+
 NA_REASON = 'check not built yet (planned: see DESIGN.md section 3)'
 
 
